@@ -1,6 +1,7 @@
 ID = 'C12'
 # shim=True: <unordered_map> resolves to engine/shim/unordered_map; -DVERIF_UMAP_NODES selects the node-based variant
 # (every element its own operator-new node, table of VERIF_UMAP_CAP node pointers). The native "real" build uses libstdc++.
+# memory caps per query (GB) from measured peak RSS: history k=3 2.3-2.5, k=4 mixed patterns 2.8, step 3/3 entries 2.0
 UNITS = {'lru': dict(wrap='wrap.cc', shim=True, new_block=64, cxxflags=['-DVERIF_UMAP_CAP=4', '-DVERIF_UMAP_NODES'])}
 
 BOUNDS = ('LRUSet<int> and LRUMap<int,int>, two instances each, keys {0,1,2}, sizes {0,1,2}, values {0,1,2}. '
@@ -46,7 +47,7 @@ def queries(tier):
         for k, w in cells:
             pat = ''.join(str((w >> i) & 1) for i in range(k))
             qs.append(dict(name='%s_hist_k%d_w%d' % (cls, k, w), unit='lru', harness='h_%s.c' % cls, defs={'K': k, 'WHICH': w}, unwind=6,
-                           timeout=2400, mem_gb={1: 3, 2: 4, 3: 6, 4: 10}[k], object_bits=12, cost=10 ** k,
+                           timeout=2400, mem_gb=(8 if (k, w) == (4, 0) else {1: 3, 2: 3, 3: 3.5, 4: 3.5}[k]), object_bits=12, cost=(10 ** k) * (3 if (k, w) == (4, 0) else 1),
                            desc='%s: every history of %d operations (%s) on two fresh instances, operation i applied to instance %s: return values, size(), count() after each step and the final drain order equal the reference recency list' % (
                                'LRUSet<int>' if cls == 'set' else 'LRUMap<int,int>', k, ops, pat),
                            bounds='k=%d operations, 3 keys, sizes/values 0..2, target pattern %s' % (k, pat)))
@@ -58,7 +59,7 @@ def queries(tier):
                 if quick and (m0, m1) not in step_quick:
                     continue
                 qs.append(dict(name='%s_step_m%d_m%d' % (cls, m0, m1), unit='lru', harness='h_%s_step.c' % cls, defs={'M0': m0, 'M1': m1}, unwind=16,
-                               timeout=2400, mem_gb=(3 if m0 + m1 <= 2 else 5), object_bits=12, cost=30 * (m0 + m1 + 1),
+                               timeout=2400, mem_gb=3, object_bits=12, cost=30 * (m0 + m1 + 1),
                                desc='%s inductive step: any well-formed state with %d / %d entries in instance 0 / 1, one symbolic operation (%s): results and the complete link structure of both instances equal the reference' % (
                                    'LRUSet<int>' if cls == 'set' else 'LRUMap<int,int>', m0, m1, ops),
                                bounds='pre-state: %d and %d entries, symbolic keys/sizes/values/recency order/insertion order; 1 operation' % (m0, m1)))
@@ -66,12 +67,12 @@ def queries(tier):
     for cls in ('set', 'map'):
         for k, w in ((2, 1), (3, 2)) if not quick else ((2, 1),):
             qs.append(dict(name='%s_leak_hist_k%d_w%d' % (cls, k, w), unit='lru', harness='h_%s.c' % cls, defs={'K': k, 'WHICH': w, 'NODRAIN': 1, 'NOTHROW': 1},
-                           unwind=6, timeout=2400, mem_gb={2: 4, 3: 6}[k], object_bits=12, flags=['--memory-leak-check'], cost=10 ** k,
+                           unwind=6, timeout=2400, mem_gb=3, object_bits=12, flags=['--memory-leak-check'], cost=10 ** k,
                            desc='%s: exception-free histories of %d operations, instances destroyed while populated: no leak at exit (plus all checks of the history harness)' % (cls, k),
                            bounds='k=%d, scripts in which no operation throws' % k))
         for m0, m1 in ((2, 1), (3, 3)) if not quick else ((2, 1),):
             qs.append(dict(name='%s_leak_step_m%d_m%d' % (cls, m0, m1), unit='lru', harness='h_%s_step.c' % cls, defs={'M0': m0, 'M1': m1, 'NOTHROW': 1},
-                           unwind=16, timeout=2400, mem_gb=(3 if m0 + m1 <= 3 else 5), object_bits=12, flags=['--memory-leak-check'], cost=30 * (m0 + m1 + 1),
+                           unwind=16, timeout=2400, mem_gb=3, object_bits=12, flags=['--memory-leak-check'], cost=30 * (m0 + m1 + 1),
                            desc='%s inductive step with --memory-leak-check: state, one non-throwing operation, destruction: no leak at exit' % cls,
                            bounds='pre-state %d/%d entries, operations that do not throw' % (m0, m1)))
     return qs
